@@ -4,7 +4,7 @@
    Model: Model/BstParser.v (pybtex/bibtex/bst.py, pybtex/scanner.py); printer and the classes of
    programs / layouts the statements speak about: Spec/BstPrint.v. *)
 From Pybtex Require Import Base.Prelude Base.PyChar Base.PyStr Model.BstParser Spec.BstPrint
-  Proofs.BstComment Proofs.BstLex Proofs.BstRoundtrip Proofs.BstErrors Proofs.BstArity Proofs.BstSource Proofs.BstTotal Proofs.BstLast.
+  Proofs.BstComment Proofs.BstLex Proofs.BstRoundtrip Proofs.BstErrors Proofs.BstArity Proofs.BstSource Proofs.BstTotal Proofs.BstLast Proofs.BstSound.
 
 (* %-comments: strip_comment keeps exactly the part of the line before the first percent sign that
    has an even number of double quotes before it (a percent sign inside a string literal is not a
@@ -180,3 +180,21 @@ Proof. vm_compute. auto. Qed.
 Theorem parse_string_fuel : forall src, parse_string src <> OutOfFuel.
 Proof. exact Proofs.BstTotal.parse_string_fuel. Qed.
 Print Assumptions parse_string_fuel.
+
+(* "malformed source is rejected", in general: whatever list(parse_string(src)) accepts IS a layout
+   of the program it returns -- the comment-stripped text consists of exactly the lexical tokens of
+   that program, in order (so braces are balanced and every token is a name, a string, an integer
+   or a brace), each spelt in an allowed way (Proofs/BstSound.spells: names and strings verbatim,
+   integers as #-?digits with that value), separated by whitespace only, followed by whitespace.
+   Hence any source that is not of this form (unbalanced braces, stray or broken tokens, unknown
+   commands) is not accepted; with arity_respected_partial / last_command_complete the only
+   malformed sources accepted are those of finding F21. *)
+Theorem accepted_is_printed : forall src p, parse_string src = Ok p ->
+  exists g, layout_of (flat_program p) (text_of_string src) g /\ forallb is_space g = true.
+Proof. exact Proofs.BstSound.accepted_is_printed. Qed.
+Print Assumptions accepted_is_printed.
+
+Example accepted_example :
+  parse_string (s2l "function{f}{#-007 'x} % c
+   Read ") = Ok [(s2l "function", [[TId (s2l "f")]; [TInt (-7); TQuote (s2l "x")]]); (s2l "Read", [])].
+Proof. vm_compute. reflexivity. Qed.
